@@ -490,3 +490,38 @@ def run_driver(exe, cases_text, args=(), timeout=1800, shards=None):
         for i in ids:
             out[i] = bymap.get(i, i + " <no-output rc=%d>" % rc)
     return out, "".join(err)
+
+
+def ocaml_driver_glue(name, ext, glue):
+    """like ocaml_driver, for extractions in which Coq's `string` type occurs (it extracts to
+    an OCaml type named `string`, which ocaml/conv.ml — written for OCaml's own string — cannot
+    be compiled against after `open Isal`): the hand-written glue is ocaml/<glue> instead of
+    conv.ml, compiled under the module name Conv all the same.  (added for C12/dispatch)"""
+    outdir = os.path.join(VERIF, "ocaml", "_build")
+    os.makedirs(outdir, exist_ok=True)
+    exe = os.path.join(outdir, name + "_driver")
+    extracted = os.path.join(COQ, "Extract", "out", ext + ".ml")
+    conv = os.path.join(VERIF, "ocaml", glue)
+    drv = os.path.join(VERIF, "ocaml", name + "_driver.ml")
+    with Lock("ocaml"):
+        lib = os.path.join(outdir, "lib-" + ext)
+        stamp = os.path.join(lib, "Isal.cmx")
+        if (not os.path.exists(stamp) or
+                any(os.path.getmtime(stamp) < os.path.getmtime(p) for p in (extracted, conv))):
+            shutil.rmtree(lib, ignore_errors=True)
+            os.makedirs(lib)
+            shutil.copy(extracted, os.path.join(lib, "Isal.ml"))
+            shutil.copy(extracted + "i", os.path.join(lib, "Isal.mli"))
+            shutil.copy(conv, os.path.join(lib, "conv.ml"))
+            sh(["ocamlfind", "ocamlopt", "-O2", "-w", "-a", "-c", "Isal.mli", "Isal.ml", "conv.ml"],
+               cwd=lib, timeout=900)
+        need = (not os.path.exists(exe) or
+                any(os.path.getmtime(exe) < os.path.getmtime(p) for p in (stamp, drv)))
+        if need:
+            work = os.path.join(outdir, name)
+            shutil.rmtree(work, ignore_errors=True)
+            os.makedirs(work)
+            shutil.copy(drv, work)
+            sh(["ocamlfind", "ocamlopt", "-O2", "-w", "-a", "-I", lib, os.path.join(lib, "Isal.cmx"),
+                os.path.join(lib, "conv.cmx"), name + "_driver.ml", "-o", exe], cwd=work, timeout=900)
+    return exe
